@@ -219,7 +219,24 @@ fn referenced_definitions(text: &str) -> Vec<(usize, String, String)> {
         // referenced elsewhere: as a value (= "name") or inside a list
         let quoted = format!("\"{}\"", name);
         let occurrences = text.matches(&quoted).count();
-        if occurrences > 1 {
+        // walls are referenced by position: the WINDOW blocks that follow them hang from them
+        let positional = ["EXTERIOR-WALL", "INTERIOR-WALL", "ROOF", "UNDERGROUND-WALL"].contains(&ty) && {
+            let mut found = false;
+            for l2 in lines.iter().skip(i + 1) {
+                let t2 = l2.trim();
+                if t2.starts_with('"') {
+                    if t2.ends_with("= WINDOW") {
+                        found = true;
+                        break;
+                    }
+                    if t2.ends_with("-WALL") || t2.ends_with("= ROOF") || t2.ends_with("= SPACE") || t2.ends_with("= FLOOR") {
+                        break;
+                    }
+                }
+            }
+            found
+        };
+        if occurrences > 1 || positional {
             out.push((i, name.to_string(), ty.to_string()));
         }
     }
